@@ -25,6 +25,7 @@ THOROUGH = [(c, o, s, 'clang') for c in CONFIGS for (o, s) in (('-O0', True), ('
 GCC = os.environ.get('VERIF_GCC', 'gcc')
 
 MAXSLOT = 48
+MAXT = 16
 LCM = 5 * 11 * 23 * 53          # keys k*LCM collide in every small Table size
 WORDS = ['', 'a', 'b', 'ab', 'ba', 'abc', 'x', 'y', 'zz', 'K0', 'K1', 'key', 'Key', 'val', 'Q_1', 'hello', 'world', '0', '00', '9z', 'AaAa', 'BBBB']
 
@@ -76,6 +77,7 @@ class Gen:
     def __init__(self, rng, profile, ooc=0.02):
         self.r = rng; self.p = profile; self.ooc = ooc
         self.s = {}          # slot -> dict(kind=val|array|list|table|tree, ty, vt, data)
+        self.t = {}          # tuple slot -> dict(ty, data=[literals])  (heap Tuples: harness-only operations)
         self.lines = []
     # values
     def ival(self):
@@ -209,6 +211,7 @@ class Gen:
             x = self.pick(lambda v: v['kind'] == 'val')
             if x is None: return
             o = self.s[x]; v = self.val(o['ty']); o['data'] = v; self.emit('vset', x, v)
+        elif op == 'tuple': self.tuple_op()
         elif op == 'exc':
             if r.random() < 0.5: self.emit('exc', r.randrange(0, 6))
             else: self.emit('nest', r.randrange(0, 6), r.randrange(0, 6))
@@ -244,6 +247,48 @@ class Gen:
                 c = self.pick(lambda v: seq(v) and v['ty'] == 'I')
                 if c is not None: self.emit('map', c, r.randrange(-5, 6))
             else: self.emit('gc')
+    def tuple_op(self):
+        r = self.r
+        vals = lambda ty: [k for k, v in self.s.items() if v['kind'] == 'val' and v['ty'] == ty]
+        live = list(self.t)
+        x = r.random()
+        if not live or x < 0.12:
+            fr = [i for i in range(MAXT) if i not in self.t]
+            ty = r.choice('IS'); vs = vals(ty)
+            if not fr or not vs: return
+            t = r.choice(fr); xs = [r.choice(vs) for _ in range(r.choice([0, 1, 2, 3, 5, 9]))]
+            self.t[t] = dict(ty=ty, data=[self.s[k]['data'] for k in xs]); self.emit('tnew', t, ty, *xs); return
+        t = r.choice(live); o = self.t[t]; L = len(o['data']); vs = vals(o['ty'])
+        key = (lambda z: int(z[1:])) if o['ty'] == 'I' else (lambda z: z[1:])
+        if x < 0.30 and vs and L < 60:
+            k = r.choice(vs)
+            if L and r.random() < 0.4:
+                i = r.randrange(-L, L); o['data'].insert(L + i if i < 0 else i, self.s[k]['data']); self.emit('tpushat', t, i, k)
+            else: o['data'].append(self.s[k]['data']); self.emit('tpush', t, k)
+        elif x < 0.40 and L:
+            if r.random() < 0.5: o['data'].pop(); self.emit('tpop', t)
+            else:
+                i = r.randrange(-L, L); o['data'].pop(i); self.emit('tpopat', t, i)
+        elif x < 0.50 and L: self.emit('tget', t, r.randrange(-L, L))
+        elif x < 0.56 and L and vs:
+            i = r.randrange(-L, L); k = r.choice(vs); o['data'][i] = self.s[k]['data']; self.emit('tset', t, i, k)
+        elif x < 0.66: self.emit(r.choice(['titems', 'tritems', 'tlen', 'thash']), t)
+        elif x < 0.72: o['data'].sort(key=key); self.emit('tsort', t)
+        elif x < 0.78 and vs:
+            k = r.choice(vs); self.emit('tmem', t, k)
+        elif x < 0.82 and vs:
+            ks = [k for k in vs if self.s[k]['data'] in o['data']]
+            if not ks: return
+            k = r.choice(ks); o['data'].remove(self.s[k]['data']); self.emit('trem', t, k)
+        elif x < 0.87 and vs and L < 60:
+            xs = [r.choice(vs) for _ in range(r.randrange(0, 4))]
+            o['data'].extend(self.s[k]['data'] for k in xs); self.emit('tcat', t, *xs)
+        elif x < 0.90 and L:
+            n = r.randrange(0, L); del o['data'][n:]; self.emit('tresize', t, n)
+        elif x < 0.94:
+            t2 = r.choice([k for k in live if self.t[k]['ty'] == o['ty']]); self.emit('tcmp', t, t2)
+        else:
+            del self.t[t]; self.emit('tdrop' if r.random() < self.p.get('_drop', 0.15) else 'tdel', t)
     def kill(self):
         x = self.pick(lambda v: True)
         if x is None: return
@@ -268,14 +313,17 @@ class Gen:
         elif k == 9 and sq is not None: self.emit('resize', sq, len(self.s[sq]['data']) + 1)
         elif k == 10 and sq is not None: self.emit('concat', sq, sq)
         elif k == 11 and mp is not None: self.emit('sort', mp)
+        elif k == 9: self.emit('tget', r.randrange(MAXT), 300)
+        elif k == 10: self.emit('tpush', r.randrange(MAXT), dead)
         else: self.emit('del', dead)
 
 PROFILES = {
-    'mixed':  dict(new=10, kill=6, push=14, pop=8, read=12, set=5, sort=3, mset=12, mread=9, mrem=5, copy=4, concat=2, resize=1, cmp=4, vset=2, exc=2, tonly=8),
+    'mixed':  dict(new=10, kill=6, push=14, pop=8, read=12, set=5, sort=3, mset=12, mread=9, mrem=5, copy=4, concat=2, resize=1, cmp=4, vset=2, exc=2, tonly=8, tuple=8),
     'seq':    dict(new=6, kill=3, push=30, pop=16, read=14, set=8, sort=6, copy=3, concat=4, resize=2, cmp=4, tonly=6, exc=1),
     'map':    dict(new=5, kill=2, mset=40, mread=20, mrem=18, copy=3, tonly=2, exc=1),
-    'churn':  dict(new=30, kill=26, copy=12, push=6, mset=6, read=4, mread=4, vset=4, tonly=6, exc=2, _drop=0.6),   # allocation pressure: collector at work
+    'churn':  dict(new=30, kill=26, copy=12, push=6, mset=6, read=4, mread=4, vset=4, tonly=6, exc=2, tuple=14, _drop=0.6),   # allocation pressure: collector at work
     'views':  dict(new=8, kill=3, push=14, pop=4, tonly=50, read=6, vset=4, exc=6, cmp=4),
+    'tuples': dict(new=10, kill=4, vset=6, tuple=60, tonly=4, exc=2, copy=3, _drop=0.3),   # heap Tuples whose items only the Tuple references
 }
 
 class C18(Spec):
@@ -295,10 +343,11 @@ class C18(Spec):
     level_note = ('PARTIAL by nature: the compiler is not modelled; optimisation levels and the real effect of the switches on the C code are '
                   'covered by the differential build matrix (testing). Trusted: Lean kernel; translate/g_cfg.py (text-level extraction); '
                   'the harness/driver/transcript comparison; clang, libc.')
-    rule = ('workloads: op files of 250-600 public-API operations over <=48 objects (Int, String, Array, List, Table, Tree; push/pop/insert/'
+    rule = ('workloads: op files of 250-600 public-API operations over <=48 objects (Int, String, Array, List, Table, Tree, heap Tuple; push/pop/insert/'
             'remove/get/set/mem/len/sort/copy/concat/resize/compare, map set/get/rem/mem, iteration both ways, caught and nested '
             'exceptions; transcript-only: hash, show, print_to formats, Float, range/slice/reverse/enumerate/zip/filter/map views, forced '
-            'collections), five profiles (mixed, sequences, maps with colliding keys, allocation churn with dropped objects, views), ~2% '
+            'collections, heap Tuples whose items only the Tuple references), six profiles (mixed, sequences, maps with colliding keys, '
+            'allocation churn with dropped objects, views, tuples), ~2% '
             'deliberately out-of-contract operations that every build and the model must refuse identically. Each file runs on the default '
             'build + Lean driver (O lines compared) and on every build of the matrix (O and T lines compared byte for byte with the default '
             'build). non-trivial item = an operation that was in contract and executed (not refused); distinct = distinct (operation text, '
@@ -356,6 +405,10 @@ class C18(Spec):
             acc['model_collections'] = acc.get('model_collections', 0) + int(m.group(5))
             acc['model_cache_fills'] = acc.get('model_cache_fills', 0) + int(m.group(6))
     # ---------------------------------------------------------------- the build matrix
+    def model_selfcheck(self, case, m_out):
+        if 'O model-config-divergence' in m_out:
+            return 'the model itself computes different outcomes or observable contents under two configurations on this input'
+        return None
     def matrix(self, tier):
         return QUICK if tier == 'quick' else THOROUGH
     def _run(self, exe, lines, name):
@@ -388,7 +441,10 @@ class C18(Spec):
         exes = []
         for job, ok, exe, lg in built:
             if not ok:
-                ctx['problems'].append(('harness-build', f'harness does not compile in configuration {tag_of(*job)}: {lg[-1200:]}'))
+                # the library (or the public-API workload) does not even build under this configuration: a violation by itself
+                errs = [l for l in lg.split('\n') if 'error' in l][:3]
+                failures.append(dict(kind='build', case=Case('build-' + tag_of(*job), ['# no input needed: the build fails']), sig=f'c18-{job[0]}-{opt_name(*job[1:])}',
+                                     detail=f'the tree does not compile in configuration {tag_of(*job)} ({job[3]}, defines {CONFIGS[job[0]]}, {job[1]}): ' + ' | '.join(errs)[:900]))
             else: exes.append((job, exe))
         cases = list(self._cases.values())
         work = [(job, exe, c) for (job, exe) in exes for c in cases]
